@@ -24,12 +24,33 @@ def split_out(out):
     return blocks
 
 
+def run_with_retry(cases, wd, chunk=800):
+    """the harness keeps the analysis result of every `lsp`/`diags` case alive (it is never dropped), so a worker's
+    address space grows with the number of such cases: run in chunks (fresh workers).  A watchdog timeout or a
+    worker abort on these small programs is almost always machine load / the address-space limit: run those cases
+    again, alone and with a long limit, before the observation is compared (a real crash or non-termination
+    reproduces and still ends up as a finding)"""
+    obs, wall = [], 0.0
+    for k in range(0, len(cases), chunk):
+        o, w = vlib.run_harness(cases[k:k + chunk], wd, name="cases_%d" % (k // chunk), jobs=4, timeout=60)
+        obs += o
+        wall += w
+    late = [i for i, o in enumerate(obs)
+            if {"timeout", "abort"} & {o.get("compile"), o.get("status"), o.get("lsp")}]
+    if late:
+        again, w2 = vlib.run_harness([cases[i] for i in late], wd, name="retry", jobs=1, timeout=600)
+        for i, o in zip(late, again):
+            obs[i] = o
+        wall += w2
+    return obs, wall, len(late)
+
+
 def run(prop, tier, seed):
     rep = vlib.Report(prop, tier, seed, "translation_validation")
     wd = vlib.workdir(prop)
     outdir = os.path.join(wd, "enum")
     os.makedirs(outdir, exist_ok=True)
-    res = vlib.tlc(MODULE, env={"C22_TIER": tier, "C22_SEED": seed, "OUTDIR": outdir}, timeout=1500,
+    res = vlib.tlc(MODULE, env={"C22_TIER": tier, "C22_SEED": seed, "OUTDIR": outdir}, timeout=1500, xmx="3g",
                    metadir=os.path.join(wd, "meta"))
     vlib.tlc_ok(res, MODULE)
     cases = []
@@ -42,7 +63,7 @@ def run(prop, tier, seed):
         # transport encoding: the specification emits a file, and the expected output, as sequences of lines
         c["files"] = {n: "\n".join(ls) + "\n" for n, ls in c["files"].items()}
         c["expect"]["out"] = "".join("\n".join([ck["mark"]] + ck["out"]) + "\n" for ck in c["checks"])
-    obs, hwall = vlib.run_harness(cases, wd, jobs=12, timeout=60)
+    obs, hwall, retried = run_with_retry(cases, wd)
 
     nchecks = 0
     failed_checks = 0
@@ -58,6 +79,7 @@ def run(prop, tier, seed):
             rep.finding(key, c, o, mism, "program %s does not compile/run: %s" % (c["id"], detail[:200]))
             continue
         blocks = split_out(o.get("out", ""))
+        located = 0
         for ck in c["checks"]:
             want = ck["out"]
             got = blocks.get(ck["i"])
@@ -65,12 +87,16 @@ def run(prop, tier, seed):
                 got = got[:-1]          # the text after the last newline
             if got != want:
                 failed_checks += 1
+                located += 1
                 key = c.get("key") or "C22|%s|%s|%s" % (ck["tmpl"], ck["ty"], c["layout"])
                 sub = dict(c, checks=[ck], id="%s#%d" % (c["id"], ck["i"]))
                 rep.finding(key, sub, {"out_of_check": got, "id": o.get("id")},
                             [{"field": "out", "want": want, "got": got}],
                             "%s at %s: %s prints %s, specification: %s" % (ck["tmpl"], ck["ty"], " ".join(ck["src"])[:120],
                                                                           json.dumps(got)[:150], json.dumps(want)[:150]))
+
+        if not located:
+            rep.finding(c.get("key") or "C22|program|out|%s" % c["id"], c, o, mism, "output of program %s differs outside the checks" % c["id"])
 
     by_tmpl = collections.Counter(ck["tmpl"] for c in cases for ck in c["checks"])
     by_iface = collections.Counter(ck["iface"] for c in cases for ck in c["checks"])
@@ -93,7 +119,7 @@ def run(prop, tier, seed):
                 "option, generic struct Bag<T> up to depth 2) x sample value pairs, batched per type, per template and in the "
                 "file layouts single/lib/libgen; evaluations = checks (statement + expected lines), distinct = (template, type) pairs",
         "exhaustive": True,
-        "tlc_states": res.distinct, "tlc_wall_s": round(res.wall, 1), "harness_wall_s": round(hwall, 1),
+        "tlc_states": res.distinct, "tlc_wall_s": round(res.wall, 1), "harness_wall_s": round(hwall, 1), "cases_retried_after_timeout_or_abort": retried,
         "types": len(types), "type_pairs_two_param_generic": len(type_pairs), "type_shapes": dict(collections.Counter(shape(t) for t in types)),
         "checks_by_template": dict(by_tmpl), "checks_by_interface": dict(by_iface),
         "programs_by_axis": dict(by_axis), "programs_by_layout": dict(by_layout),
